@@ -205,10 +205,80 @@ func head(b []byte, n int) []byte {
 	return b
 }
 
+// sweep varies the length of one variable-length field of one message kind.
+type sweep struct {
+	name string
+	max  int // largest length on the wire's range
+	mk   func(n int) p9p.Message
+}
+
+func sweeps() []sweep {
+	str := func(n int) string { return strings.Repeat("s", n) }
+	d := func(f func(d *p9p.Dir, s string)) func(n int) p9p.Message {
+		return func(n int) p9p.Message {
+			dir := p9p.Dir{Type: 1, Dev: 2, Qid: p9p.Qid{Type: 3, Version: 4, Path: 5}, Mode: 6, AccessTime: time.Unix(7, 0), ModTime: time.Unix(8, 0), Length: 9, Name: "n", UID: "u", GID: "g", MUID: "m"}
+			f(&dir, str(n))
+			return p9p.MessageRstat{Stat: dir}
+		}
+	}
+	const S = 65535
+	return []sweep{
+		{"Tversion.version", S, func(n int) p9p.Message { return p9p.MessageTversion{MSize: 1, Version: str(n)} }},
+		{"Rversion.version", S, func(n int) p9p.Message { return p9p.MessageRversion{MSize: 1, Version: str(n)} }},
+		{"Tauth.uname", S, func(n int) p9p.Message { return p9p.MessageTauth{Afid: 1, Uname: str(n), Aname: "a"} }},
+		{"Tauth.aname", S, func(n int) p9p.Message { return p9p.MessageTauth{Afid: 1, Uname: "u", Aname: str(n)} }},
+		{"Tattach.uname", S, func(n int) p9p.Message { return p9p.MessageTattach{Fid: 1, Afid: 2, Uname: str(n), Aname: "a"} }},
+		{"Tattach.aname", S, func(n int) p9p.Message { return p9p.MessageTattach{Fid: 1, Afid: 2, Uname: "u", Aname: str(n)} }},
+		{"Rerror.ename", S, func(n int) p9p.Message { return p9p.MessageRerror{Ename: str(n)} }},
+		{"Twalk.wname", S, func(n int) p9p.Message { return p9p.MessageTwalk{Fid: 1, Newfid: 2, Wnames: []string{"a", str(n), "b"}} }},
+		{"Twalk.nwname", S, func(n int) p9p.Message { return p9p.MessageTwalk{Fid: 1, Newfid: 2, Wnames: nameList(n, "ab")} }},
+		{"Rwalk.nwqid", S, func(n int) p9p.Message { return p9p.MessageRwalk{Qids: qidList(n)} }},
+		{"Tcreate.name", S, func(n int) p9p.Message { return p9p.MessageTcreate{Fid: 1, Name: str(n), Perm: 2, Mode: 3} }},
+		{"Rread.data", 1 << 24, func(n int) p9p.Message { return p9p.MessageRread{Data: pat(n)} }},
+		{"Twrite.data", 1 << 24, func(n int) p9p.Message { return p9p.MessageTwrite{Fid: 1, Offset: 2, Data: pat(n)} }},
+		{"Rstat.name", S - 60, d(func(d *p9p.Dir, s string) { d.Name = s })},
+		{"Rstat.uid", S - 60, d(func(d *p9p.Dir, s string) { d.UID = s })},
+		{"Rstat.gid", S - 60, d(func(d *p9p.Dir, s string) { d.GID = s })},
+		{"Rstat.muid", S - 60, d(func(d *p9p.Dir, s string) { d.MUID = s })},
+		{"Twstat.name", S - 60, func(n int) p9p.Message {
+			return p9p.MessageTwstat{Fid: 1, Stat: d(func(d *p9p.Dir, s string) { d.Name = s })(n).(p9p.MessageRstat).Stat}
+		}},
+	}
+}
+
+// sweepLens: every length up to 1100 (quick) or 4200 (thorough), every power
+// of two up to 2^20 / 2^24 with its neighbours, and the top of the 16-bit range.
+func sweepLens(quick bool) []int {
+	dense, top, pmax := 1100, 70, 1<<20
+	if !quick {
+		dense, top, pmax = 4200, 600, 1<<24
+	}
+	seen := map[int]bool{}
+	var out []int
+	add := func(n int) {
+		if n >= 0 && !seen[n] {
+			seen[n] = true
+			out = append(out, n)
+		}
+	}
+	for n := 0; n <= dense; n++ {
+		add(n)
+	}
+	for p := 1; p <= pmax; p <<= 1 {
+		for dlt := -3; dlt <= 3; dlt++ {
+			add(p + dlt)
+		}
+	}
+	for n := 65535 - top; n <= 65535+2; n++ {
+		add(n)
+	}
+	return out
+}
+
 func c01(c *core.Ctx) {
 	c.SetLevel("exploration")
 	c.Budget(60*time.Second, 12*time.Minute)
-	c.SetRule("per message kind: full cross product (mixed-radix counter) of per-field boundary alphabets; oracle = byte equality with an independent 9P2000 encoder, Size == len, decode(encode(m)) == m, independent decoder reads m; distinct = (kind, encoded length) classes")
+	c.SetRule("per message kind: full cross product (mixed-radix counter) of per-field boundary alphabets; oracle = byte equality with an independent 9P2000 encoder, Size == len, decode(encode(m)) == m, independent decoder reads m; distinct = (kind, encoded length) classes. Then, per variable-length field (every string, both data fields, both list counts), a sweep over every length 0..1100 (quick) / 0..4200 (thorough), every power of two up to 2^20 / 2^24 with its neighbours +-3, and the top of the 16-bit range, under the same oracle")
 	c.Assume("refcodec (written from intro(5)/stat(5), no code shared with encoding.go) is the wire-format reference", "field values outside the alphabets are not enumerated")
 	codec := p9p.NewCodec()
 	k, ks, dk := 2, 3, 2
@@ -293,6 +363,35 @@ func c01(c *core.Ctx) {
 		}
 	})
 	c.Count(total, 0, 0, 0)
+	// length sweep: one variable-length field at a time, every length of a
+	// dense range (not only the boundary alphabet above)
+	lens := sweepLens(c.Quick())
+	sw := sweeps()
+	for _, s := range sw {
+		s := s
+		var ls []int
+		for _, n := range lens {
+			if n <= s.max {
+				ls = append(ls, n)
+			}
+		}
+		total, complete := Cross([]int{len(ls)}, runtime.NumCPU(), c.Expired, func(idx []int) {
+			n := ls[idx[0]]
+			m := s.mk(n)
+			if !refcodec.Representable(m) {
+				return
+			}
+			if sig, msg := checkWire(codec, 0x0102, m); sig != "" {
+				c.Violation(sig+":len", msg, map[string]any{"sweep": s.name, "length": n})
+			}
+		})
+		c.Count(total, 0, 0, 0)
+		if !complete {
+			c.NotExhaustive("time budget reached in sweep " + s.name)
+		}
+	}
+	c.Set("length_sweeps", len(sw))
+	c.Set("lengths_per_sweep", len(lens))
 	for k, v := range classes {
 		c.Outcome(k, v)
 	}
